@@ -89,15 +89,15 @@ type Lemma struct {
 }
 
 type ContractFile struct {
-	Contracts map[string]*Contract
-	Order     []string
-	Lemmas    []*Lemma
-	TypeInvs  []*TypeInv
-	GlobalInvs []*GlobalInv
-	MapVals   []*TypeInv // `mapvals <global> <var> <type> : <expr>` facts about the values of an immutable package-level map
-	NonNilElems []string // element types whose slice elements are never nil once the slice is visible outside the frame that built it
-	FreshOnly []string // heap keys that are only ever written on objects allocated by the writer (see `freshonly`)
-	Errors    []string
+	Contracts   map[string]*Contract
+	Order       []string
+	Lemmas      []*Lemma
+	TypeInvs    []*TypeInv
+	GlobalInvs  []*GlobalInv
+	MapVals     []*TypeInv // `mapvals <global> <var> <type> : <expr>` facts about the values of an immutable package-level map
+	NonNilElems []string   // element types whose slice elements are never nil once the slice is visible outside the frame that built it
+	FreshOnly   []string   // heap keys that are only ever written on objects allocated by the writer (see `freshonly`)
+	Errors      []string
 }
 
 // TypeInv: `typeinv *VMValue v: v == nil || wfValue(v)`
